@@ -74,6 +74,7 @@ m("C20-magic-only-three-bytes", "C20", "src/ram_bundle.rs", "        self.magic 
 # ---- C05
 m("C05-with-capacity-from-input", "C05", "src/decoder.rs", "    let allocation_size = mappings.matches(&[',', ';'][..]).count() + 10;", "    let allocation_size = mappings.matches(&[',', ';'][..]).count() + 10 + rsm.ignore_list.as_ref().and_then(|l| l.first().copied()).unwrap_or(0) as usize;")
 m("C05-unwrap-on-nonstring-file", "C05", "src/decoder.rs", "    let file = rsm.file.map(|val| match val {\n        Value::String(s) => s.into(),\n        _ => \"<invalid>\".into(),\n    });", "    let file = rsm.file.map(|val| match val {\n        Value::String(s) => s.into(),\n        Value::Array(a) => a[0].to_string().into(),\n        _ => \"<invalid>\".into(),\n    });")
+m("C05-debug-id-not-normalised", "C05", "src/decoder.rs", "        .map(|id| debugid::DebugId::from_parts(id.uuid(), id.appendix()));", "        ;")
 m("C05-flatten-unchecked-again", "C05", "src/types.rs", "                let dst_line = token.get_dst_line().checked_add(off_line);", "                let dst_line = Some(token.get_dst_line() + off_line);")
 
 os.makedirs(OUT, exist_ok=True)
